@@ -17,7 +17,8 @@ EXPLANATION = (
     'comprehension or an appending loop over S, next(iter(S)), S.pop()) must be sanitised on the spot (wrapped in '
     'sorted/min/max/len/any/all/set/frozenset/membership, or guarded by a length-1 test) or its result must not '
     'escape the function (returned, stored in a field, passed on); hash-ordered dicts handed to other functions '
-    'are followed to their consumers through the reasoned table; R2 the alternatives list of a multiply-bound '
+    'are followed to their consumers through the reasoned table; R2 the alternatives of an instance attribute are appended by one '
+    'recorder in visiting order - any other place that builds or extends such a list must sort by position; the alternatives list of a multiply-bound '
     'name is built by a position sort; R3 the three API functions return only values built from sorted or '
     'source-ordered sequences; R4 no id()/hash() value is computed on a path reachable from the API entry points. '
     'Equality of the outputs of two concrete processes is NOT decided.')
